@@ -294,8 +294,9 @@ where
         let h = decoder.pull().map_err(Into::into)?;
         match h {
           Header::Break => break,
-          Header::Bytes(seg_len) => {
-            let seg = read_bytes(decoder, seg_len)?;
+          // RFC 8949 3.2.3: every chunk is a definite-length byte string
+          Header::Bytes(Some(seg_len)) => {
+            let seg = read_bytes(decoder, Some(seg_len))?;
             result.extend_from_slice(&seg);
           }
           _ => return Err(DecodeError::Syntax(decoder.offset())),
@@ -329,8 +330,9 @@ where
         let h = decoder.pull().map_err(Into::into)?;
         match h {
           Header::Break => break,
-          Header::Text(seg_len) => {
-            let seg = read_text(decoder, seg_len)?;
+          // RFC 8949 3.2.3: every chunk is a definite-length text string
+          Header::Text(Some(seg_len)) => {
+            let seg = read_text(decoder, Some(seg_len))?;
             result.push_str(&seg);
           }
           _ => return Err(DecodeError::Syntax(decoder.offset())),
